@@ -468,6 +468,36 @@ def m_option_string_eq(ex, st, callee, args):
     return [(None, Sc("bool", z3.simplify(r)))]
 
 
+def m_default_ne(ex, st, callee, args):
+    """`<T as PartialEq>::ne` of a crate type that only defines `eq` (derive / manual impl): the trait's default `!self.eq(other)`"""
+    from sym import Invoke
+    own = ex.resolver(callee, 2)
+    if own is not None:
+        return [(None, Invoke(own, list(args), lambda st2, val: val))]
+    eq = ex.resolver(callee[:-4] + "::eq", 2)
+    if eq is None:
+        raise Inconclusive("unknown callee: " + callee)
+    return [(None, Invoke(eq, list(args), lambda st2, val: Sc("bool", z3.Not(val.e))))]
+
+
+def m_option_ref_eq(ex, st, callee, args):
+    """<Option<&T> as PartialEq>::eq / ne for a crate type T: variants must agree; two `Some` compare with `T::eq`"""
+    from sym import Invoke
+    a_, b_ = _val(ex, st, args[0], depth=1), _val(ex, st, args[1], depth=1)
+    if not all(isinstance(x, Adt) and x.ty == "Option" for x in (a_, b_)):
+        raise Inconclusive("Option comparison of %r and %r" % (a_, b_))
+    neg = callee.endswith("::ne")
+    if a_.variant != b_.variant:
+        return [(None, Sc("bool", z3.BoolVal(neg)))]
+    if a_.variant == "None":
+        return [(None, Sc("bool", z3.BoolVal(not neg)))]
+    m_ = re.match(r"^<Option<&(.*)> as PartialEq>::", callee)
+    eq = ex.resolver("<%s as PartialEq>::eq" % m_.group(1), 2) if m_ else None
+    if eq is None:
+        raise Inconclusive("element equality for " + callee)
+    return [(None, Invoke(eq, [a_.fields[0], b_.fields[0]], lambda st2, val: Sc("bool", z3.Not(val.e)) if neg else val))]
+
+
 def m_as_slice(ex, st, callee, args):
     return [(None, args[0])]
 
@@ -577,6 +607,7 @@ def install(m):
         (r"^Option::<.*>::filter::<", m_option_filter),
         (r"^<\[.*\] as PartialEq>::(eq|ne)$|^<Vec<.*> as PartialEq>::(eq|ne)$|^core::slice::cmp::<impl PartialEq<\[.*\]> for \[.*\]>::(eq|ne)$", m_slice_eq),
         (r"^<Gc<GcCell<Vec<.*>>> as PartialEq>::(eq|ne)$", m_gc_vec_eq),
+        (r"^<Option<&(variables|stack|function)::.*> as PartialEq>::(eq|ne)$", m_option_ref_eq),
         (r"^Option::<.*>::ok_or::<", m_option_ok_or),
         (r"^Option::<.*>::map::<.*\{closure@", m_option_map_closure),
         (r"^<Option<String> as PartialEq>::(eq|ne)$", m_option_string_eq),
@@ -611,6 +642,8 @@ def install(m):
         (r"^core::slice::<impl \[.*\]>::reverse$|^Vec::<.*>::reverse$", m_vec_reverse),
     ]
     m.table = [(re.compile(p), h) for p, h in pre] + m.table
+    # lowest priority: the default `ne` of crate types
+    m.table = m.table + [(re.compile(r"^<(variables|stack|function|instruction|context|file)::.* as PartialEq(<.*>)?>::ne$"), m_default_ne)]
     m.cache.clear()
     return m
 
